@@ -837,6 +837,15 @@ def _worker(args):
             # the encoder model reads the constructed state's entries, whatever sequence holds them
             respell(common.sub_rng(seed, "encodecorr", "argspelling", stage, k, str(rest[0])), spec, info,
                     drop=("sections",))
+        if fixed is None and len(rest) > 1 and rest[1] == "zerow":
+            # the zero-width-column class (`harness/zerowidth.py`): tiny relative widths on displayed columns other than
+            # the first (body; header rows with their own widths) — equal adjacent cumulative boundaries, which the
+            # model computes exactly and the encoder in floating point
+            from . import zerowidth
+
+            zerowidth.apply(common.sub_rng(seed, "encodecorr", "zerowidth", stage, k, str(rest[0])), spec, info)
+            if rest[0]:
+                label_headers(spec, info)
         if fixed is None:
             draw_unserialized(seed, spec, info, stage, k, *map(str, rest))
         out = dict(spec=spec, info=info, stage=stage)
@@ -931,7 +940,7 @@ ARGSPELL_SHARE = {1: 8, 2: 3, 3: 4}    # argument-spelling documents per stage (
 
 
 def generate_and_compare(seed: int, n_per_stage: int, stages=(1, 2, 3), headers: bool = False, shapes: bool = False,
-                         spelled: int = 0, argspelled: bool = False):
+                         spelled: int = 0, argspelled: bool = False, zerowidth: int = 0):
     """`headers=True` adds the documents of the header-variation class (`vary_headers`) to every stage, `shapes=True`
     those of the data-shape class (`datashapes.gen_corr_doc`); `spelled` adds that many documents of the header class per
     stage with their component arguments in other container spellings"""
@@ -945,6 +954,8 @@ def generate_and_compare(seed: int, n_per_stage: int, stages=(1, 2, 3), headers:
         # the argument-spelling class over the three document classes in turn (plain stream / header class / data shapes)
         jobs += [(seed, st, k, None, (False, True, "shapes")[k % 3], "args") for st in stages
                  for k in range(n_per_stage // ARGSPELL_SHARE[st])]
+    # the zero-width-column class (`harness/zerowidth.py`): that many documents per stage, plain stream / header class
+    jobs += [(seed, st, k, None, (False, True)[k % 2], "zerow") for st in stages for k in range(zerowidth)]
     outs = common.pool_map(_worker, jobs, chunksize=8)
     for o in outs:
         if "machinery" in o:
@@ -957,9 +968,12 @@ def run(res, tier):
     n = 150 if tier == "quick" else 1200
     from . import datashapes
 
-    outs = generate_and_compare(res.seed, n, headers=True, shapes=True, argspelled=True)
+    from . import zerowidth
+
+    outs = generate_and_compare(res.seed, n, headers=True, shapes=True, argspelled=True, zerowidth=n // 4)
     for o in outs:
         st = STAGE_NAMES[stage_of(o["spec"])]
+        zerowidth.count(res, o["info"], f"zerowidth:encode:{o['verdict']}")
         count_spelling(res, o["info"], f"spell:encode:{o['verdict']}")
         case = dict(level="encode-doc", spec=o["spec"], info={k: v for k, v in o["info"].items() if k != "expect"})
         res.count(f"encode:{st}:{o['verdict']}")
